@@ -91,3 +91,8 @@ Proof. intros ops1 ops2 j p H. cbv zeta. apply pipeline_config_frozen_l; [apply 
 (* the scan of every component __call__ (Gen/C14_alias.v) finds no statement writing through an ItemList parameter *)
 Lemma no_itemlist_writes_l : itemlist_param_writes = [].
 Proof. reflexivity. Qed.
+
+(* the alias table the proofs rely on, as extracted from the source *)
+Lemma alias_table_l : from_pipeline_edges = Copy /\ build_wiring = Copy /\ dsb_init_schema = Copy /\ build_container_schema = Copy /\
+  build_instances_fresh = true /\ connect_creates_fresh = true /\ clear_inputs_fresh = true /\ clone_via_config = true.
+Proof. repeat split; reflexivity. Qed.
